@@ -355,7 +355,14 @@ impl IgnoreFilter {
 			// Unwrap will always succeed because every node has an entry.
 			let ignores = trie_node.value().unwrap();
 
-			let match_ = if path.strip_prefix(&self.origin).is_ok() {
+			// The trie finds the longest key that is a *string* prefix of the path, which may be a
+			// sibling (`test` for `tests/foo`): only ignores of a real ancestor apply.
+			let in_scope = path.starts_with(trie_node.key().unwrap());
+
+			let match_ = if !in_scope {
+				trace!(?path, ?search_path, "ignores are not for an ancestor of the path, skipping");
+				Match::None
+			} else if path.strip_prefix(&self.origin).is_ok() {
 				trace!(?path, ?search_path, "checking against path or parents");
 				ignores.gitignore.matched_path_or_any_parents(path, is_dir)
 			} else {
